@@ -40,7 +40,7 @@ def truth(p):
                     acc_keeps.add(g["data_path"])
                 elif s["fn"] not in seen:
                     first_level(s["fn"], seen | {s["fn"]}, True, acc_keeps, acc_loads)
-            elif s["k"] in ("method", "clsattr"):
+            elif s["k"] in ("method", "clsattr", "clsref"):
                 # (a class that is merely referred to by name is analysed like a call of the class: static reach)
                 c = p["classes"][s["cls"]]
                 if c.get("calls"):
@@ -95,7 +95,7 @@ def truth(p):
                     ks, ls = set(), set()
                     first_level(s["fn"], {s["fn"]}, True, ks, ls)
                     hs |= ks
-            elif s["k"] in ("method", "clsattr"):
+            elif s["k"] in ("method", "clsattr", "clsref"):
                 # Cls(arg).method() / Cls.LEVEL: the constructor takes an argument, so the call is context dependent for dds
                 takes_args = True
                 c = p["classes"][s["cls"]]
